@@ -152,7 +152,12 @@ def h_parse(ctx):
         exit_facts=lambda I_, env, k, it: (at.__setitem__('k', k), [])[1])
     for nd in fors[1:]:
         # the character loop that splits a tags value: its state stays inside the value being built
-        sp.loops[(q, fr.loop_ordinals[id(nd)])] = LoopSpec(lambda I_, env, k, it: {}, {'depth': lambda I_: Untracked(), 'current': lambda I_: Untracked(), 'tags': lambda I_: Untracked()})
+        # (whatever scanning state the splitter keeps - nesting depth, quote, the part being collected: every local the loop body assigns or mutates)
+        local = {t.id for x in ast.walk(nd) for t in ast.walk(x) if isinstance(t, ast.Name) and isinstance(t.ctx, ast.Store)}
+        local |= {c.func.value.id for c in ast.walk(nd) if isinstance(c, ast.Call) and isinstance(c.func, ast.Attribute) and isinstance(c.func.value, ast.Name)
+                  and c.func.attr in ('append', 'add', 'extend', 'clear', 'pop')}
+        local -= {'current_rule', 'rule_start_line', 'self'}
+        sp.loops[(q, fr.loop_ordinals[id(nd)])] = LoopSpec(lambda I_, env, k, it: {}, {v: (lambda I_: Untracked()) for v in sorted(local)})
     for g in GHOSTS:
         for f in g.unfold(lines, z3.IntVal(-1)):
             ctx.assume(f)
